@@ -36,12 +36,12 @@ N_WORK = {'quick': 6, 'thorough': 30}
 
 def plan(tier):
     if tier == 'quick':
-        return dict(runs=260 + N_WORK['quick'] * ENUM_KMAX['quick'] * 2 + 200, batch=4, hard_timeout=600, soft_timeout=120)
+        return dict(runs=400 + N_WORK['quick'] * ENUM_KMAX['quick'] * 2 + 400, batch=4, hard_timeout=600, soft_timeout=120)
     return dict(runs=6000 + N_WORK['thorough'] * ENUM_KMAX['thorough'] * 2 + 6000, batch=8, hard_timeout=1800, soft_timeout=300)
 
 
 def _sizes(tier):
-    nff = 260 if tier == 'quick' else 6000
+    nff = 400 if tier == 'quick' else 6000
     nenum = N_WORK[tier] * ENUM_KMAX[tier] * 2
     return nff, nenum
 
